@@ -74,6 +74,28 @@ PROPS = {
         "trusted_base": [t.replace("NLE/Model/Own.lean", "NLE/Model/HB.lean") for t in SCEN_TB],
         "assumptions": ["the checker returns within its deadline"],
     },
+    "C04": {
+        "theorems": ["NLE.Theorems.C04"],
+        "models": ["Val", "Life"],
+        "modes": scen("tamper", "takeover", "faults", "conn", "vacancy"),
+        "level": "proof",
+        "claim": "Table theorems over every reading of the record (all JSON shapes as seen by the map decoder), every store answer and every context state: the verdict is true iff the instance leads at the call, its token is non-empty, the context is not done, and the read returned a JSON object whose string token equals the caller's token and whose string id equals the caller's id; every other situation gives false; ValidateTokenOrDemote returns the same verdict and enters the demotion path exactly when it is false and the instance still leads. Tie: the acceptor ValAcc follows every API call in every trace (flag and token at the call, the read it issues, answer vs deadline) and requires the returned verdict to be the model's; the read's value is what the store held at its application inside the call interval (store correspondence); the demotion and its callback are checked by the Life model and the C04 monitors.",
+        "design_ref": "§6 C04",
+        "rule": "record contents from a table of JSON shapes (non-JSON, arrays, scalars, wrong types, missing/duplicate/case-variant keys, forged ids/tokens, 64 KiB values), outside writes/deletes and takeovers racing with ValidateToken / ValidateTokenOrDemote calls with and without deadlines; distinct non-trivial = (scenario, trigger) pairs with a validate call",
+        "trusted_base": [t.replace("NLE/Model/Own.lean", "NLE/Model/ValAcc.lean and NLE/Model/Validate.lean") for t in SCEN_TB],
+        "assumptions": ["A-json: the map decoder's reading of the bytes is computed by the real encoding/json", "a deadline that coincides with the answer may go either way (Go select)"],
+    },
+    "C11": {
+        "theorems": ["NLE.Theorems.C11"],
+        "models": ["Conn", "Life", "Val"],
+        "modes": scen("conn", q=200, t=3000),
+        "level": "proof",
+        "claim": "Theorems about the connection model with regenerated constants: the grace period is the configured value or max(3H, 5 s); a disconnect received while leading arms the timer for exactly now+G and after any run of such notifications it is due G after the latest; a reconnect cancels it and starts the verification after 100 ms; when the timer fires the mechanism demotes iff the instance still leads (never before the deadline); the verification's verdict is positive iff the read shows the instance's id and token (via C04). Tie: the acceptor Conn.step requires every demotion the model decides to show as a cleared flag at that very instant and follows the verification read by read; the C11 monitors check 'no demotion outside the grace expiry' in notification-only scenarios. Deadlock/crash freedom: harness watchdog + lock-order facts (C20), not proved.",
+        "design_ref": "§6 C11",
+        "rule": "sequences of up to 5 disconnect/reconnect/closed notifications with gaps on a lattice around G, G/2, 100 ms, 2 s (never exactly on a timer), optionally an outside write, a partition or a stop during the outage; all valid grace periods incl. default; distinct non-trivial = (scenario, trigger) pairs with a disconnect/reconnect while leading or a grace demotion",
+        "trusted_base": [t.replace("NLE/Model/Own.lean", "NLE/Model/Conn.lean") for t in SCEN_TB],
+        "assumptions": ["notifications are delivered by invoking the handlers the monitor registered on an unconnected *nats.Conn", "a disconnect received while not leading does not re-arm a pending timer (as the code does; noted F24)"],
+    },
     "C08": {
         "theorems": ["NLE.Theorems.C08"],
         "models": ["Life"],
